@@ -1182,3 +1182,10 @@ M('C18-on-neutral-reject-late', 'C18', F_GAME,
   "        if start_addr + len(data) > CART_DATA_SIZE:\n",
   "        if start_addr + len(data) > CART_DATA_SIZE + 1:\n",
   expect='R-C18-reject', on='neutral2-C18')
+M('C17-on-neutral2-sfx-volume-mask', 'C17', 'pico8/sfx/sfx.py',
+  "    (7, _KEEP_ALL, 0xf1, lambda v: (0, v << 1)),\n",
+  "    (7, _KEEP_ALL, 0xf0, lambda v: (0, v << 1)),\n",
+  expect='R-C17-frame', on='neutral2-C17')
+M('C17-on-neutral2-map-rows', 'C17', 'pico8/map/map.py',
+  "        if y < MAP_OWN_ROWS:\n", "        if y <= MAP_OWN_ROWS:\n",
+  expect='R-C17-', on='neutral2-C17')
